@@ -10,7 +10,7 @@ import random
 from . import vtime
 from .common import Machinery, Report, import_redress, seed
 from .graph import replay_graph
-from .tlc import run_tlc
+from .tlc import pick_cfg, run_tlc
 from .tracecheck import tlc_validate
 
 
@@ -67,12 +67,11 @@ def random_history(rng: random.Random, length: int) -> dict:
 def check(tier: str) -> Report:
     rep = Report(prop="C10", tier=tier, level="model_checking")
     rng = random.Random(seed() * 104729 + 5)
-    mc_cfg = f"BudgetMC_{tier}.cfg"
+    mc_cfg = pick_cfg("BudgetMC_quick", tier)
     mc = run_tlc("BudgetMC.tla", mc_cfg, tag="bud-mc", timeout=3000)
     if not mc.ok:
         raise Machinery(f"spec-level counterexample in BudgetMC: {mc.violated}\n{mc.output[-2000:]}")
-    ex = run_tlc("BudgetMC.tla", "BudgetMC_export.cfg" if tier == "quick" else
-                 "BudgetMC_export_thorough.cfg", tag="bud-exp", timeout=3000)
+    ex = run_tlc("BudgetMC.tla", pick_cfg("BudgetMC_export", tier), tag="bud-exp", timeout=3000)
     if not ex.ok:
         raise Machinery(f"BudgetMC export violated {ex.violated}")
     configs = ex.tagged["CONFIGS"][0][0]
